@@ -146,6 +146,19 @@ pub fn run(case: &Case) -> Vec<Violation> {
             talloc::track(|| watcher.watch_directory(new.clone(), Interest::MODIFY, Recursive::No).expect("watch dir again"));
             ([new, paths[1].clone()], [1i32, 2i32])
         }
+        4 => {
+            // The watched directory is moved away and a new one created under the same name, which is
+            // registered too: two watch descriptors (two inodes) recorded under one path.
+            let (here, away) = (dir.join("rotated"), dir.join("rotated.old"));
+            let _ = std::fs::remove_dir_all(&here);
+            let _ = std::fs::remove_dir_all(&away);
+            std::fs::create_dir_all(&here).expect("mkdir");
+            talloc::track(|| watcher.watch_directory(here.clone(), Interest::ALL, Recursive::No).expect("watch dir"));
+            std::fs::rename(&here, &away).expect("rename");
+            std::fs::create_dir_all(&here).expect("mkdir again");
+            talloc::track(|| watcher.watch_directory(here.clone(), Interest::ALL, Recursive::No).expect("watch the new dir"));
+            ([here.clone(), here], [1i32, 2i32])
+        }
         _ => {
             talloc::track(|| {
                 watcher.watch_directory(paths[0].clone(), Interest::ALL, Recursive::No).expect("watch dir");
@@ -470,7 +483,7 @@ pub fn cases(quick: bool) -> Vec<Case> {
     }
     // The other ways of adding the watches, over a sample of the cases above (all of the short ones).
     let extra: Vec<Case> = v.iter().filter(|c| c.recs.len() <= if quick { 1 } else { 2 } && c.recs.iter().all(|r| r.name_len < 40)).cloned().collect();
-    for setup in [1u8, 2, 3] {
+    for setup in [1u8, 2, 3, 4] {
         for c in &extra {
             v.push(Case { setup, ..c.clone() });
         }
